@@ -92,10 +92,23 @@ Routable(x, c) == \A h \in DOMAIN RouteOf(x, c) : RouteOf(x, c)[h][1] \notin {"L
 NodeName == [ xyz |-> "Xyz", yxy |-> "Yxy", lab |-> "Lab", lch |-> "Lch", luv |-> "Luv", lchuv |-> "Lchuv",
               hsluv |-> "Hsluv", oklab |-> "Oklab", oklch |-> "Oklch", okhsl |-> "Okhsl", okhsv |-> "Okhsv",
               okhwb |-> "Okhwb", linsrgb |-> "Rgb", srgb |-> "Rgb", hsl |-> "Hsl", hsv |-> "Hsv", hwb |-> "Hwb",
-              linluma |-> "Luma", srgbluma |-> "Luma" ]
+              linluma |-> "Luma", srgbluma |-> "Luma",
+              adobe |-> "Rgb", linadobe |-> "Rgb", p3 |-> "Rgb", linp3 |-> "Rgb", rec2020 |-> "Rgb", linrec2020 |-> "Rgb",
+              rec709 |-> "Rgb", hsv_adobe |-> "Hsv", hsl_p3 |-> "Hsl", hwb_rec2020 |-> "Hwb",
+              xyz50 |-> "Xyz", lab50 |-> "Lab", lch50 |-> "Lch", luv50 |-> "Luv", prophoto |-> "Rgb", linprophoto |-> "Rgb",
+              hsv_prophoto |-> "Hsv", xyzdci |-> "Xyz", labdci |-> "Lab", dcip3 |-> "Rgb", lindcip3 |-> "Rgb" ]
 NodeStd == [ n \in DOMAIN NodeName |-> CASE n \in {"srgb", "hsl", "hsv", "hwb", "srgbluma"} -> "srgb"
                                             [] n \in {"linsrgb", "linluma"} -> "linear"
+                                            [] n \in {"adobe", "hsv_adobe"} -> "adobe"
+                                            [] n \in {"p3", "hsl_p3"} -> "p3"
+                                            [] n \in {"rec2020", "hwb_rec2020"} -> "rec2020"
+                                            [] n \in {"prophoto", "hsv_prophoto"} -> "prophoto"
+                                            [] n \in {"linadobe", "linp3", "linrec2020", "rec709", "linprophoto", "dcip3", "lindcip3"} -> n
                                             [] OTHER -> "" ]
+(* the white point every node is relative to; conversions exist only within one white point *)
+NodeWp == [ n \in DOMAIN NodeName |-> CASE n \in {"xyz50", "lab50", "lch50", "luv50", "prophoto", "linprophoto", "hsv_prophoto"} -> "D50"
+                                           [] n \in {"xyzdci", "labdci", "dcip3", "lindcip3"} -> "DCI"
+                                           [] OTHER -> "D65" ]
 (* conversions between DIFFERENT types that carry an RGB standard (hand-written or derived) are generic
    over ONE standard - the derive instantiates the source with the target's standard - whereas
    Rgb <- Rgb and Luma <- Luma convert between standards *)
@@ -105,7 +118,8 @@ SameStdOnly(x, c) == x # c /\ {x, c} \subseteq {"Rgb", "Hsl", "Hsv", "Hwb"}
 PairExists(a, b) ==
   LET x == NodeName[b]  c == NodeName[a]
       r == RouteOf(x, c)
-  IN /\ Routable(x, c)
+  IN /\ NodeWp[a] = NodeWp[b]
+     /\ Routable(x, c)
      /\ \A h \in DOMAIN r : r[h] \notin ManualMissing
      /\ (SameStdOnly(x, c) => NodeStd[a] = NodeStd[b])
 =============================================================================
